@@ -7,7 +7,7 @@
 From Coq Require Import String.
 From Coq Require Import List ZArith NArith Bool Arith Lia Sorted.
 Import ListNotations.
-Require Import PyLib PyLib2 Str Rx TextModel SortProofs G_fn_sir4 RefJun RefValue RefWord.
+Require Import PyLib PyLib2 Str Rx TextModel SortProofs G_fn_sir4 RefJun RefBase RefWord.
 Notation vstr := RefJun.vstr.
 
 (* local copies of two helpers (so that this file does not depend on the refinement of unrelated functions) *)
